@@ -3,6 +3,7 @@ package main
 import (
 	"encoding/json"
 	"fmt"
+	"golang.org/x/tools/go/ssa"
 	"os"
 	"sort"
 	"strings"
@@ -91,7 +92,11 @@ func verifyFunctions(P *Program, C *Contracts, keys []string, opt solveOpts, fil
 		for _, o := range obls {
 			if filter == nil || filter(o) {
 				fr.Obls = append(fr.Obls, o)
-				prepareObligation(ex.ctx, o, ModeInt, opt)
+				mode := ModeInt
+				if ex.fc != nil && ex.fc.BV {
+					mode = ModeBV
+				}
+				prepareObligation(ex.ctx, o, mode, opt)
 				jobs = append(jobs, job{fr, o})
 			}
 		}
@@ -172,6 +177,14 @@ func cmdVerify(args []string) int {
 	}
 	res := verifyFunctions(P, C, keys, solveOpts{secs: secs, workdir: wd, keep: keep}, nil)
 	bad := 0
+	if len(pats) == 0 {
+		for _, o := range staticObligations(P, C) {
+			if o.Result != "unsat" {
+				fmt.Printf("   %-8s static %s: %s\n", o.Result, o.Name, o.Clause)
+				bad++
+			}
+		}
+	}
 	for _, fr := range res {
 		if fr.Err != nil {
 			fmt.Printf("ERROR %s\n", fr.Err)
@@ -376,6 +389,14 @@ func cmdCheck(args []string) int {
 		}
 		if contractHasProp(fc, prop) {
 			keys = append(keys, k)
+			continue
+		}
+		// guarded-field obligations arise in every function of the package that touches the field
+		for _, gs := range C.Guarded {
+			if hasProp(gs.Props, prop) && fc.Pkg == gs.Pkg {
+				keys = append(keys, k)
+				break
+			}
 		}
 	}
 	sort.Strings(keys)
@@ -397,6 +418,11 @@ func cmdCheck(args []string) int {
 
 	toolErr := false
 	var allObls []*Obligation
+	for _, o := range staticObligations(P, C) {
+		if hasProp(o.Props, prop) {
+			allObls = append(allObls, o)
+		}
+	}
 	assumptions := map[string]int{}
 	var fnNames []string
 	backends := map[string]int{}
@@ -612,4 +638,79 @@ func writeReplayFile(path, prop string, o *Obligation, rep map[string]interface{
 	}
 	b, _ := json.MarshalIndent(m, "", " ")
 	os.WriteFile(path, b, 0o644)
+}
+
+// staticObligations: program-level checks that need no solver: fields declared immutable are
+// stored to only by their constructors (this is what lets their values survive call-outs).
+func staticObligations(P *Program, C *Contracts) []*Obligation {
+	var out []*Obligation
+	if len(C.Immutable) == 0 {
+		return nil
+	}
+	dummyFn := (*ssa.Function)(nil)
+	_ = dummyFn
+	var anyFn *ssa.Function
+	for _, f := range P.Funcs {
+		if isRepoFunc(f) && f.Blocks != nil {
+			anyFn = f
+			break
+		}
+	}
+	ex := NewExec(P, C, anyFn)
+	fx := ex.fx()
+	writers := map[string][]string{}
+	for _, k := range P.sortedFuncKeys() {
+		fn := P.Funcs[k]
+		if !isRepoFunc(fn) || fn.Blocks == nil {
+			continue
+		}
+		for _, b := range fn.Blocks {
+			for _, ins := range b.Instrs {
+				st, ok := ins.(*ssa.Store)
+				if !ok {
+					continue
+				}
+				func() {
+					defer func() { recover() }()
+					for _, lf := range fx.famsOfLoc(fx.locOf(st.Addr)) {
+						base := lf.key
+						if i := strings.Index(base, "#"); i >= 0 {
+							base = base[:i]
+						}
+						if _, ok := C.Immutable[base]; ok {
+							writers[base] = append(writers[base], k)
+						}
+					}
+				}()
+			}
+		}
+	}
+	var fields []string
+	for f := range C.Immutable {
+		fields = append(fields, f)
+	}
+	sort.Strings(fields)
+	for _, f := range fields {
+		spec := C.Immutable[f]
+		bad := ""
+		for _, w := range writers[f] {
+			ok := false
+			for _, c := range spec.Constructors {
+				if strings.Contains(shortKey(w), c) {
+					ok = true
+				}
+			}
+			if !ok {
+				bad = shortKey(w)
+			}
+		}
+		o := &Obligation{Name: "immutable/" + f, Kind: "immutable", Props: spec.Props, Clause: "field " + f + " is stored to only by " + strings.Join(spec.Constructors, ", "), Fn: "program", Backend: "static", Result: "unsat", Goal: True, PC: True}
+		if bad != "" {
+			o.Result = "sat"
+			o.Output = "stored to by " + bad
+			o.Clause += " (violated by " + bad + ")"
+		}
+		out = append(out, o)
+	}
+	return out
 }
